@@ -439,10 +439,11 @@ func (d txDesc) tx() *types.Transaction {
 }
 
 // a tiny contract: runtime increments slot 0, stores the block context the executor hands to the EVM
-// (TIMESTAMP, NUMBER, COINBASE, BLOCKHASH(NUMBER-1), GASPRICE, ORIGIN -> slots 1..6, so that any
-// replica-local value in the context reaches the state root) and emits LOG0(0,0)
+// (TIMESTAMP ^ NUMBER ^ COINBASE ^ BLOCKHASH(NUMBER-1) ^ GASPRICE ^ ORIGIN -> slot 1, so that any
+// replica-local value in the context reaches the state root; one slot because the node charges 30x gas)
+// and emits LOG0(0,0). BLOCKHASH calls the executor context's chain: the harness's callback point.
 const runtimeCode = "600160005401600055" +
-	"42600155" + "43600255" + "41600355" + "6001430340600455" + "3a600555" + "32600655" +
+	"42" + "4318" + "4118" + "600143034018" + "3a18" + "3218" + "600155" +
 	"60006000a0" + "00"
 
 func initCode() string {
@@ -527,7 +528,7 @@ func genBlock(r *hx.Rng) blockCase {
 		case k == 11: // operator node (10 units fee, then create2 through the main node contract - absent here)
 			d = txDesc{Type: types.TransactionTypeOperatorNode, Source: addrHex(addr(110 + r.Intn(len(validatorIds))))}
 		default: // contract call
-			cd, _ := json.Marshal(types.ContractData{GasLimit: "1000000", TransferValue: []string{"0", "0.5"}[r.Intn(2)], AbiData: ""})
+			cd, _ := json.Marshal(types.ContractData{GasLimit: "3000000", TransferValue: []string{"0", "0.5"}[r.Intn(2)], AbiData: ""})
 			d = txDesc{Type: types.TransactionTypeContract, Source: addrHex(addr(1 + r.Intn(8))), Target: addrHex(deployed), Data: string(cd)}
 		}
 		if useReq {
@@ -567,6 +568,28 @@ func escrowDump(adb *account.AccountDB, h uint64) []string {
 }
 
 func runBlockAt(w *world, bc blockCase, height uint64) (o blockOutcome, panicked interface{}) {
+	o, _, panicked = runBlockX(w, bc, height, "fullverify", &ctlChain{})
+	return
+}
+
+// ctlChain: the executor context's chain (BLOCKHASH asks it); onHash lets a test act in the middle of a
+// contract transaction's execution: move the node clock, yield the processor.
+type ctlChain struct {
+	calls  int
+	onHash func(call int)
+}
+
+func (c *ctlChain) GetBlockHash(h uint64) common.Hash {
+	c.calls++
+	if c.onHash != nil {
+		c.onHash(c.calls)
+	}
+	return common.BytesToHash(common.Sha256([]byte("blk" + strconv.FormatUint(h, 10))))
+}
+
+// runBlockX: newVMExecutor(fresh state of w, block, situation).Execute() with the given chain context;
+// also returns the transaction list Execute returns (what a proposer publishes as the block body).
+func runBlockX(w *world, bc blockCase, height uint64, situation string, chain *ctlChain) (o blockOutcome, packed []*types.Transaction, panicked interface{}) {
 	defer func() {
 		if p := recover(); p != nil {
 			panicked = fmt.Sprintf("%v\n%s", p, debug.Stack())
@@ -579,7 +602,8 @@ func runBlockAt(w *world, bc blockCase, height uint64) (o blockOutcome, panicked
 		txs[i] = d.tx()
 	}
 	block := &types.Block{Header: headerAt(height), Transactions: txs}
-	root, evicted, executed, receipts := core.VerifC01ExecuteBlock(adb, block, "fullverify")
+	root, evicted, executed, receipts := core.VerifC01ExecuteBlockWithChain(adb, block, situation, chain)
+	packed = executed
 	o.Root = root.Hex()
 	for _, e := range evicted {
 		o.Evicted = append(o.Evicted, e.Hex())
@@ -899,6 +923,12 @@ func main() {
 
 	// ---- L6 history dependence (process-local memo state) ----
 	historySearch(a, rng, res, nBlk/4)
+
+	// ---- L7 proposer (casting, wall clock) vs verifier ----
+	castSearch(a, rng, res, nBlk/4)
+
+	// ---- L8 blocks executing concurrently in one process ----
+	concurrencySearch(a, rng, res)
 
 	// ---- L3 sort ----
 	for i := 0; i < nSort; i++ {
